@@ -2,7 +2,11 @@
 import wallet_checks
 from wallet_common import *
 
-MANIFEST_ENTRY = None   # set below when the check is registered
+MANIFEST_ENTRY = dict(
+    cat="model_checking", ref='DESIGN.md 4 C05', engine="wallet-tla",
+    text='TLC explores every flow (send, late-locked send in thorough, invoice in thorough) cancelled at every stage by log id and by slate id, with a second pending transaction, including refused cancels (confirmed, already cancelled, coinbase, unknown), and checks CancelIsRollback / CancelRefusedUnchanged as action properties on the model; the generated behaviours run on real wallets (the driver makes the refresh that owner::cancel_tx performs observable as its own step) and TLC judges the exact-rollback frame condition on the observed before/after states.',
+    technique="TLC model checking of spec/MCWallet.tla + TLC-generated behaviours replayed on the real code + TLC trace validation (spec/TraceWallet.tla)",
+    note=WALLET_NOTE)
 
 PARAMS = dict(quick_cfgs=['MC_C05_quick.cfg'], thorough_cfgs=['MC_C05.cfg', 'MC_C05_inv.cfg'], quick_n=60, thorough_n=500,
               setup=STD_SETUP, assumptions=WALLET_ASSUME, extra_behaviours=[])
